@@ -18,6 +18,11 @@ fn main() {
     if args.len() < 2 {
         usage();
     }
+    if std::env::var_os("SIM_TRACING").is_some() {
+        // Debug aid: print remoc's internal tracing events (filter from SIM_TRACING, e.g. "remoc=trace").
+        let filter = tracing_subscriber::EnvFilter::new(std::env::var("SIM_TRACING").unwrap_or_default());
+        tracing_subscriber::fmt().with_env_filter(filter).without_time().with_target(true).init();
+    }
     kit::install();
     let checks = props::all();
     match args[1].as_str() {
